@@ -28,6 +28,7 @@ type iterParams struct {
 	Horizon int    `json:"horizon"`
 	Slow    int    `json:"slow,omitempty"`  // creation index of a goroutine that is held back (1 search, 2 quit-cancel, 3 consumer)
 	Until   int    `json:"until,omitempty"` // ... until this many steps after the halt instant
+	HaltOn  int    `json:"halt_on,omitempty"` // the consumer itself calls Halt as soon as it has received this depth (a GUI that stops on seeing depth N)
 }
 
 func iterRoot() search.Search {
@@ -126,6 +127,12 @@ func buildIter(params json.RawMessage) explore.Scenario {
 						return
 					}
 					got = append(got, pv)
+					if p.HaltOn > 0 && pv.Depth == p.HaltOn && !haltCalled {
+						seenAtHalt = pv.Depth
+						haltCalled = true
+						r := h.Halt()
+						halted = &r
+					}
 				}
 			})
 			if p.HaltAt >= 0 {
@@ -246,7 +253,7 @@ func init() {
 	Builders["iter"] = buildIter
 	Defs["C15"] = &Def{
 		ID:   "C15",
-		Rule: "real searchctl.Iterative.Launch on small roots (K v K, fortress, checkmated, stalemated, mate-in-1 net) x depth limit {none,1,2,3} x table {off,on} x time control {none, given}; threads: the iterative-deepening goroutine, its quit-cancel goroutine, a consumer, a halter whose Halt becomes enabled at scheduler step k for a grid of k over the whole run (halt instant enumerated), the hard-limit timer (release step enumerated), the search / quit-cancel / consumer goroutine in turn held back for 60 steps after the halt instant (slow-thread dimension) and, with a time control, every time.Since answered 'short' or 'longer than any limit' (environment deviation); all schedules within the deviation bound. Oracle: reported depths strictly increasing; every reported and every Halt-returned (score, PV with table off) equals a direct fixed-depth search; ends by itself exactly at the depth limit or at the first depth with a forced mate within the depth, never earlier, never without a reason; Halt returns a completed iteration >= 1 at least as deep as everything reported before it was requested. Plus the complete grid of TimeControl.Limits (sequential). distinct_nontrivial = distinct (depth stream, halt result) classes",
+		Rule: "real searchctl.Iterative.Launch on small roots (K v K, fortress, checkmated, stalemated, mate-in-1 net) x depth limit {none,1,2,3} x table {off,on} x time control {none, given}; threads: the iterative-deepening goroutine, its quit-cancel goroutine, a consumer, a halter whose Halt becomes enabled at scheduler step k for a grid of k over the whole run (halt instant enumerated), the hard-limit timer (release step enumerated), a consumer that itself calls Halt as soon as it has received depth 1 or 2 next to that timer (two callers of Halt; timer at every step of a grid and as a lazy thread), the search / quit-cancel / consumer goroutine in turn held back for 60 steps after the halt instant (slow-thread dimension) and, with a time control, every time.Since answered 'short' or 'longer than any limit' (environment deviation); all schedules within the deviation bound. Oracle: reported depths strictly increasing; every reported and every Halt-returned (score, PV with table off) equals a direct fixed-depth search; ends by itself exactly at the depth limit or at the first depth with a forced mate within the depth, never earlier, never without a reason; Halt returns a completed iteration >= 1 at least as deep as everything reported before it was requested. Plus the complete grid of TimeControl.Limits (sequential). distinct_nontrivial = distinct (depth stream, halt result) classes",
 		Gen: func(tier string) []explore.Scenario {
 			roots := []string{kP1, kFortress, kMated, kStale, "7k/8/5K2/6Q1/8/8/8/8 b - - 0 1",
 				"7k/8/6K1/8/8/8/8/R7 b - - 0 1",  // the side to move is mated in 2: the analysis must end at depth 3
@@ -273,6 +280,28 @@ func init() {
 								}
 							} else {
 								out = append(out, iterScenario(base))
+							}
+							// the consumer halts as soon as it has seen depth D, next to the hard-limit timer (two
+							// callers of Halt on one handle), the timer firing at every step of a grid or lazily
+							if (f == kP1 || f == kFortress) && !table && (limit == 0 || limit == 3) {
+								for _, d := range []int{1, 2} {
+									q := base
+									q.HaltOn = d
+									if !tc {
+										out = append(out, iterScenario(q))
+										continue
+									}
+									q.Timer = -1
+									out = append(out, iterScenario(q))
+									step := 2
+									if tier == "thorough" {
+										step = 1
+									}
+									for t := 0; t <= 160; t += step {
+										q.Timer = t
+										out = append(out, iterScenario(q))
+									}
+								}
 							}
 							// with a halter released at every k of a grid over the unhalted run
 							s, _ := explore.RunOnce(iterScenario(base), nil)
